@@ -23,26 +23,28 @@ TECHNIQUE = (
     "through the real Execer.compile/parse (decision per statement), the real Execer.exec against builtin exec, and syntax-error inputs"
 )
 LEVEL_TEXT = (
-    "proof (partial): Spec = the property's own binding rule (a name is defined if it is a builtin, a session name, or bound earlier "
-    "in an enclosing scope of the source by assignment incl. unpacking, import incl. dotted, def, class, for, with, except, walrus, "
-    "global, a parameter; lambda parameters and comprehension variables inside their expression; `del` unbinds in the scope it is "
-    "in, at module level also the session's variable). Impl = CtxAwareTransformer visitor by visitor (context stack, ctxadd / "
-    "ctxupdate / ctxremove, contexts[1] for global, BoolOp/UnaryOp-only descent, comprehension non-descent, Lambda exemption, "
-    "gather_load_store_names with names -= store, is_in_scope, leftmostname, the bare-builtin rewrite with the user_names shield), "
-    "one verdict per is_in_scope test. C02_python_wins_partial: for EVERY program (any nesting, scope depth, length), every set of "
-    "builtins and session names: a statement all of whose reads are defined is never offered to command interpretation, provided no "
-    "one of seven named mechanisms was triggered before it; proved by structural induction over the mutually inductive AST with a "
-    "level-by-level simulation invariant between the property's scopes and the context stack. The full statement is false for the "
-    "code as it is: one Lean counterexample per mechanism (C02_cex_dotted_import, _walrus_in_boolop, _walrus_in_expr_stmt, "
-    "_lambda_param, _comprehension_var, _nested_target, _del_builtin, _except_name; for `del`: C02_cex_del_session_record, "
-    "_del_sequence_target), each "
-    "reproduced on the real code and recorded as an open finding. C02_python_wins_repaired: with all mechanisms repaired the "
-    "statement holds with no guard at all. C02_user_name_shield (a user-bound bare name is never read from builtins), "
+    "proof: HEADLINE C02_python_wins_repaired - for EVERY program (any nesting, scope depth, length), every set of builtins and session "
+    "names: a statement all of whose reads are defined (a builtin, a session name, or bound earlier in an enclosing scope of the source "
+    "by assignment incl. unpacking, import incl. dotted, def, class, for, with, except, walrus, global, a parameter; lambda parameters "
+    "and comprehension variables inside their expression; `del` unbinds in the scope it is in, at module level also the session's "
+    "variable) is NEVER offered to command interpretation, with no side condition. It is a theorem about the transformer as it is "
+    "now: a visitor-by-visitor model of CtxAwareTransformer (context stack, ctxadd / ctxupdate / ctxremove, contexts[1] for global, "
+    "BoolOp/UnaryOp-only descent, comprehension / lambda contexts, statement-entry walrus record, gather_load_store_names with "
+    "names -= store, is_in_scope, leftmostname / gather_names, the bare-builtin rewrite with the user_names shield), one verdict per "
+    "is_in_scope test, proved by structural induction over the mutually inductive AST with a level-by-level simulation invariant "
+    "between the property's scopes and the context stack. The nine mechanisms that made this false (dotted import, walrus outside "
+    "generic_visit, lambda parameters, comprehension variables, nested unpacking targets, del of a builtin-named session variable, "
+    "except-name struck by a del in the try body; for the del clause: session record surviving del, del of tuple/list targets) were "
+    "found by this check, have one Lean counterexample each against the earlier code (C02_cex_*, model variant Fixes.none), and are "
+    "repaired in /repo (nine fix commits, `fixed: <hash>` in known_findings.json; their witnesses must pass on every run). The model "
+    "variant tied to the code is chosen per mechanism by replaying those witnesses (all nine repairs on = Fixes.all); "
+    "C02_python_wins_gen is the same theorem for ANY subset of repairs under the syntactic guards of the unrepaired mechanisms "
+    "(C02_python_wins_partial = none repaired). C02_user_name_shield (a user-bound bare name is never read from builtins), "
     "C02_store_same_stmt, C02_del_returns (after `del x` of a name recorded once, through ANY statements that do not record x, a line "
     "reading x is offered again), C02_scope_pop (+_class, _offers: what only a def / class body records is gone after it, at any depth). "
     "C02_parse_before_exec: on every path of Execer.exec / eval (skeleton regenerated from the source every run) builtin exec / "
     "eval is applied only to code compiled from the whole input. Tie: generated programs through the real Execer.compile/parse "
-    "(decision per statement, 0 disagreements with Impl), the real Execer.exec against builtin exec (operation log, namespace, "
+    "(decision per statement, 0 disagreements with the model), the real Execer.exec against builtin exec (operation log, namespace, "
     "output), and malformed inputs (nothing runs)."
 )
 LEVEL_NOTE = (
@@ -1827,7 +1829,12 @@ def replay_known(ctx):
             ACTIVE.add(key_fix[f["key"]])
             ctx.disagreements[:] = [d for d in ctx.disagreements if d["case"].get("stream") != "known-witness" or d["case"].get("source") != w["source"]]
             ctx.lean_notes.append(f"known finding {f['key']}: its witness passes on this tree; model switched to the repaired variant of that mechanism")
-        ctx.replayed(f["key"], bool(hit), {"statement": hit[0]["case"].get("statement") if hit else None, "others": [x["key"] for x in new if x["key"] != f["key"]],
+        if f.get("status", "").startswith("fixed") and new and all(x["key"] in {g["key"] for g in ctx.known if g.get("status") == "open"} for x in new):
+            # a repaired finding's witness MUST pass: whatever fails on it is reported, also when it looks like another open finding
+            ctx.spec_failure({"stream": "known-witness", "source": w["source"], "session_names": w["session_names"]},
+                             {"fails_as": [x["key"] for x in new]}, f"the witness of the repaired finding {f['key']} fails again", None)
+        ctx.replayed(f["key"], bool(hit) or (f.get("status", "").startswith("fixed") and bool(new)),
+                     {"must_pass": f.get("status", "").startswith("fixed"), "statement": hit[0]["case"].get("statement") if hit else None, "others": [x["key"] for x in new if x["key"] != f["key"]],
                                           "model_variant": "repaired" if key_fix.get(f["key"]) in ACTIVE else "as the code is"})
     ctx.extra["model_variant_repairs_on"] = sorted(ACTIVE)
 
@@ -1840,7 +1847,7 @@ def run(ctx):
     ctx.assumptions += [
         "a session is loaded (builtins has __xonsh__ etc.) and Execer.compile is called as the shell calls it: glbs = locs = the session namespace",
         "$XONSH_BUILTINS_TO_CMD is False (default): builtin_cmd(name) returns the builtin",
-        "the xonsh grammar parses the generated (valid Python) source to CPython's tree (C01); the two forms found where it does not are not generated",
+        "the xonsh grammar parses the generated (valid Python) source to CPython's tree (C01); forms found where it did not (`for *a, in x:` still open) are not generated",
         "whether an offered node's re-parse as a command succeeds is the lexer's business (C03): not modelled",
     ]
     ctx.explanation = (
